@@ -496,6 +496,10 @@ def notes_ok(lines, obs):
         if ln == "note other_labels_unaffected_by_nan_label" and ob != "ok":
             return fail(ln, "results for one label do not depend on the driver of another label (here: another label's stock is NaN)",
                         "the other labels' inflow as before", ob)
+        if ln == "note other_labels_unaffected_by_vanishing_label" and ob != "ok":
+            return fail(ln, "every combination of non-time labels evolves as if computed alone with its own parameters "
+                            "(here: another label's lifetime is so short that nothing survives the first interval)",
+                        "the other labels' inflow as before", ob)
     return None
 
 
